@@ -2,6 +2,7 @@
 from hypothesis import strategies as st
 
 import param
+from param.parameterized import batch_call_watchers
 from vlib import refworld as rw
 from vlib.core import Result
 
@@ -53,7 +54,9 @@ def _case(draw):
     ctor = draw(st.lists(st.tuples(st.sampled_from(TN), st.just(None)), max_size=2, unique_by=lambda l: l[0]))
     ctor = [[n, draw(rw.ref_for(n))] for n, _ in ctor]
     return {"ctor": ctor, "prefix": draw(st.lists(_prefix_op(), max_size=8)), "attempt": draw(_attempt),
-            "route": draw(st.sampled_from(["attr", "attr", "update", "class", "ctor"]))}
+            "route": draw(st.sampled_from(["attr", "attr", "update", "class", "ctor"])),
+            # the attempt may happen inside an open batch that already holds a queued (accepted) change
+            "in_batch": draw(st.sampled_from([False, False, True]))}
 
 
 def strategy(tier):
@@ -167,6 +170,12 @@ def execute(case):
         for n, spec in case["ctor"]:
             kw2[n] = rw.build_ref(spec, srcs)[0]
         kw2[name] = value
+    batch = None
+    if case.get("in_batch") and route in ("attr", "update"):
+        batch = batch_call_watchers(tgt)
+        batch.__enter__()
+        tgt.p = (tgt.p + 1) % 10          # an accepted change, queued until the batch exits
+        res.label("attempt_inside_open_batch")
     before = snapshot()
     values_before = {(on, pn): o.param.get_value_generator(pn) for on, o in objs.items() for pn in o.param}   # keep alive
     nlog = len(log)
@@ -182,6 +191,12 @@ def execute(case):
         raised = None
     except (ValueError, TypeError) as e:
         raised = e
+    nlog_after_attempt = len(log)
+    if batch is not None:
+        batch.__exit__(None, None, None)
+        if len(log) == nlog_after_attempt and nlog_after_attempt == nlog:
+            res.fail("C02.queued_event_lost", f"{att!r} via {route} inside an open batch: the accepted change queued before the "
+                                              f"rejected attempt was never announced")
     if raised is None and kind == "constant" and att[2] == "ref" and name in ("c", "name"):
         # the reference happened to resolve to the very object the constant already holds: assigning the identical
         # object is allowed, so this was not a rejected attempt after all
@@ -192,8 +207,8 @@ def execute(case):
                                              f"({name} is now {getattr(tgt, name)!r})")
         return res
     after = snapshot()
-    if len(log) != nlog:
-        res.fail("C02.watcher_invoked", f"{att!r} via {route} raised {type(raised).__name__} but watchers were invoked: {log[nlog:]!r}")
+    if nlog_after_attempt != nlog:
+        res.fail("C02.watcher_invoked", f"{att!r} via {route} raised {type(raised).__name__} but watchers were invoked: {log[nlog:nlog_after_attempt]!r}")
     diff = {k: (before.get(k), after.get(k)) for k in set(before) | set(after) if before.get(k) != after.get(k)}
     if diff:
         kinds = sorted({k[0] for k in diff})
